@@ -198,6 +198,32 @@ func c07Eval(c *fw.Ctx, k c07Case) (sig, desc string, evals int64) {
 	if !k.Deep {
 		return "", "", evals
 	}
+	// the same list built from archive infos that carry stale non-zero offsets (what re-slicing or concatenating
+	// parsed / decoded lists produces): NewHeader must lay it out and validate it all the same
+	if representableInput(k.Archs) && len(k.Archs) > 0 {
+		stale := make([]wt.ArchiveInfo, len(k.Archs))
+		okBuild := true
+		for i, a := range k.Archs {
+			b := wsp.EncodeHeaderRaw(0, 0, 0, 0, [][3]uint32{{uint32(172 + 36*i), uint32(int32(a.Step)), uint32(a.N)}})[16:]
+			if _, err := stale[i].TakeFrom(b); err != nil {
+				okBuild = false
+			}
+		}
+		if okBuild {
+			var h2 *wt.Header
+			var err error
+			if p, txt := fw.Guard(func() { h2, err = wt.NewHeader(wt.AggregationMethod(k.Method), xff, stale) }); p {
+				return "C07/NewHeader-stale-offsets/panic", ctx + ": " + firstLine(txt), evals + 1
+			}
+			evals++
+			if s, d := verdict("NewHeader-with-stale-offsets", err == nil); s != "" {
+				return s, d, evals
+			}
+			if err == nil && hdr != nil && h2.String() != hdr.String() {
+				return "C07/NewHeader-stale-offsets/header-differs", fmt.Sprintf("%s: header built from infos with stale offsets is %q, from fresh infos %q", ctx, h2.String(), hdr.String()), evals
+			}
+		}
+	}
 	// decode entry point
 	raw := rawHeaderBytes(k.Archs, k.Method, k.XFFBits)
 	fits := true
